@@ -12,9 +12,9 @@ def one(p):
     try:
         shutil.copytree("/repo/evo", os.path.join(d, "evo"), ignore=shutil.ignore_patterns("__pycache__"))
         shutil.copytree("/repo/contrib", os.path.join(d, "contrib"))
-        pr = subprocess.run(["patch", "-p1", "-s", "-i", p], cwd=d, capture_output=True, text=True)
+        pr = subprocess.run(["git", "apply", "--include=evo/*", "--include=contrib/*", p], cwd=d, capture_output=True, text=True)
         if pr.returncode:
-            return p, "PATCH-FAILED " + pr.stdout[:100]
+            return p, "PATCH-FAILED " + (pr.stdout + pr.stderr)[:100]
         r = subprocess.run([sys.executable, os.path.join(V, "tools", "check_all.py"), d], capture_output=True, text=True)
         try:
             j = json.loads(r.stdout.strip().splitlines()[-1])
